@@ -85,6 +85,9 @@ def run(tier, replay):
             reports += checklib.run_workers(CID, binp, test, tier, WORKERS, left, sub)
             wall[name] = round(time.time() - t1, 1)
             checklib.log("%s workers done in %.1fs" % (name, wall[name]))
+        # interleave the harnesses so that the evidence samples show cases of each of them
+        per = [reports[i:i + WORKERS] for i in range(0, len(reports), WORKERS)]
+        reports = [r for group in zip(*per) for r in group] if len(set(map(len, per))) == 1 else reports
         return checklib.finish(CID, tier, LEVEL, RULE, reports, t0, ASSUMPTIONS,
                                extra_cov={"harness_wall_s": wall, "bound": {
                                    "operands": 4, "atoms_full": 84, "atoms_3_operands": 13,
@@ -96,7 +99,7 @@ def run(tier, replay):
 
 
 # Set CLAIMED = True once the check is clean on the unchanged tree (exit 0, KNOWN-FINDING lines allowed).
-CLAIMED = False
+CLAIMED = True
 MANIFEST = dict(
     level="exploration",
     engine="enumx",
